@@ -23,6 +23,18 @@ def closures(r):
     return out
 
 
+def warm_view(r, r0):
+    """a run made in the build directory of the unrestricted run r0 (possibly served from its cache: no dump): its configured builds
+    are the builds of r0 whose output file is a target of the ninja file the run left"""
+    if projrun.impl_status(r) != "ok" or not r["ninja"]:
+        return r
+    pn = ninjaparse.parse(r["ninja"])
+    prod = ninjaparse.producers(pn)
+    v = dict(r)
+    v["dump"] = [b for b in r0["dump"] if b["decision"] == "built" and b["outfile"] in prod]
+    return v
+
+
 def tuples(r):
     # one tuple per (builder, definition of an app): an app name may be defined in several contexts
     return sorted((b["builder"], b["app"], b.get("app_context") or "") for b in r.get("dump", []))
@@ -61,6 +73,18 @@ def one_project(job):
         return (p0, r0, [], 0)
     vs, n = variants(p0, rng, r0)
     out = []
+    warm = rng.random() < 0.5
+    if warm:
+        # subsets and partitions run in the build directory of (and after) the unrestricted run: "whether laze was asked for all builds,
+        # for a subset ... or a partition" must not depend on what an earlier, wider run left in the cache
+        seq = [(kind, a) for kind, a in vs if kind in ("subset", "partition")]
+        try:
+            rs = projrun.run_impl_seq(p0, [p0["args"]] + [a for _, a in seq])
+            for (kind, a), r in zip(seq, rs[1:]):
+                out.append((kind + "@warm", a, warm_view(r, r0)))
+        except ninjaparse.ParseError:
+            pass
+        vs = [(kind, a) for kind, a in vs if kind == "local"]
     for kind, a in vs:
         q = dict(p0, args=a)
         out.append((kind, a, projrun.run_impl(q)))
@@ -82,8 +106,14 @@ def judge(chk, p0, r0, vs, n):
     t0 = tuples(r0)
     part_tuples = []
     nt = False
+    warm = any(kind.endswith("@warm") for kind, a, r in vs)
+    t0_part = t0
+    if warm:
+        # warm partition runs are observed through the ninja file: configured builds only
+        t0_part = sorted((b["builder"], b["app"], b.get("app_context") or "") for b in r0["dump"] if b["decision"] == "built")
     for kind, a, r in vs:
-        chk.count("variant:" + kind)
+        chk.count("variant:" + kind + (":cache-hit" if r.get("hit") else ""))
+        kind = kind.split("@")[0]
         chk.evaluations += 1
         st = projrun.impl_status(r)
         if st != "ok":
@@ -126,8 +156,8 @@ def judge(chk, p0, r0, vs, n):
         if len(flat) != len(set(flat)):
             chk.fail_oracle("indep:partitions-overlap", f"count:1..{n}/{n} partitions overlap: {part_tuples}", {"project": p0})
             return
-        if sorted(flat) != t0:
-            chk.fail_oracle("indep:partitions-not-covering", f"union of count:k/{n} partitions {sorted(flat)} != unpartitioned {t0}", {"project": p0})
+        if sorted(flat) != t0_part:
+            chk.fail_oracle("indep:partitions-not-covering", f"union of count:k/{n} partitions {sorted(flat)} != unpartitioned {t0_part}", {"project": p0})
             return
     # local runs: union over directories = all apps
     loc = [tuples(r) for kind, a, r in vs if kind == "local" and projrun.impl_status(r) == "ok"]
